@@ -279,15 +279,17 @@ theorem enter_post {w w2 : World} {v : VehicleId} {next : Act} (h : enter env w 
           split at h
           · cases h
           · next hg =>
-            simp only [Outcome.bind_eq, Outcome.bind_eq_ok, Outcome.pure_eq] at h
-            obtain ⟨st', henq, s1, h0, s2, h1, h2⟩ := h
-            cases h2
-            obtain ⟨_, _, _, hv1, _, _, _⟩ := Sim.modifyStation_fields h0
-            obtain ⟨old, ho, hn⟩ := fin hv1 h1
-            rw [hveh] at ho; cases ho
-            refine ⟨veh, _, hveh, hn, ⟨rfl, rfl, rfl, rfl⟩, rfl, rfl, st, hst, ?_, by simpa using hg, by simpa using hav⟩
-            have : veh.pos.cell = st.pos.cell := by simpa using hc
-            exact this.symm
+            split at h
+            · cases h
+            · simp only [Outcome.bind_eq, Outcome.bind_eq_ok, Outcome.pure_eq] at h
+              obtain ⟨st', henq, s1, h0, s2, h1, h2⟩ := h
+              cases h2
+              obtain ⟨_, _, _, hv1, _, _, _⟩ := Sim.modifyStation_fields h0
+              obtain ⟨old, ho, hn⟩ := fin hv1 h1
+              rw [hveh] at ho; cases ho
+              refine ⟨veh, _, hveh, hn, ⟨rfl, rfl, rfl, rfl⟩, rfl, rfl, st, hst, ?_, by simpa using hg, by simpa using hav⟩
+              have : veh.pos.cell = st.pos.cell := by simpa using hc
+              exact this.symm
   case chargingBase b cid =>
     split at h
     · cases h
